@@ -141,5 +141,36 @@ def r3(ctx):
     ctx.check('is_synchronized|shape', ok, 'is_synchronized is no longer `!matches!(self, Unsynchronized)`: %s' % isy, sample=isy)
 
 
-RULES = [r1, r2, r3]
-FLOORS = {'C03-R1': 5, 'C03-R2': 10, 'C03-R3': 16}
+def r4(ctx):
+    ctx.rule('C03-R4', 'the usable flag of a source (second component of its entry in KalmanClockController.sources) has exactly two writers: add_source / '
+             'add_one_way_source insert (None, false), and source_update stores its `usable` argument; storing a snapshot (source_message) and the steering '
+             'loops write only the first component; no entry is overwritten as a whole')
+    P = ctx.P
+    writes, inserts = [], []
+    for b in P.bodies.values():
+        if b.raw['promoted'] is not None or 'kalman::KalmanClockController' not in b.npath:
+            continue
+        fn = b.npath.split('::')[-1]
+        for st in b.assigns(lambda pl: True):
+            if st.kind == 'assign' and st.data['place']['p']:
+                t = S(b.place_term(st.data['place']))
+                if 'self.sources' in t:
+                    # which component of the (snapshot, usable) entry is written: the first `.0.<n>` after the entry is obtained from the map
+                    m = re.search(r'self\.sources[^)]*\)+ as Some\)\.0(\.[01])?', t)
+                    writes.append((fn, (m.group(1) or '') if m else '?' + t[:60], S(b.rvalue_term(st.data['rv']))[:60], st))
+        for c in b.calls(r'HashMap::(insert|entry|extend)$'):
+            if 'self.sources' in S(b.call_args(c)[0]):
+                inserts.append((fn, [S(a) for a in b.call_args(c)][1:]))
+    flag = [(fn, v) for fn, path, v, _ in writes if path == '.1']
+    ctx.check('usable-flag|writers', flag == [('source_update', 'usable')], 'writers of the usable flag: %s' % flag, sample=flag)
+    whole = [(fn, path) for fn, path, v, _ in writes if path in ('', '?') or path.startswith('?')]
+    ctx.check('usable-flag|no-whole-entry-write', not whole, 'a source entry (snapshot, usable) is overwritten as a whole in %s: this resets or forces the usable flag' % whole,
+              (next(st for fn, path, v, st in writes if (fn, path) in whole).where() if whole else None), sample=len(writes))
+    other = sorted({(fn, path) for fn, path, v, _ in writes if path == '.0'})
+    ctx.check('snapshot-component|writers', {fn for fn, _ in other} == {'source_message', 'update_clock', 'steer_offset', 'steer_frequency'}, 'writers of the snapshot component: %s' % other, sample=other)
+    ctx.check('usable-flag|initially-false', sorted(inserts) == [('add_one_way_source', ['id', '(Option::None{}, 0)']), ('add_source', ['id', '(Option::None{}, 0)'])],
+              'entries are inserted as %s' % inserts, sample=inserts)
+
+
+RULES = [r1, r2, r3, r4]
+FLOORS = {'C03-R1': 5, 'C03-R2': 10, 'C03-R3': 16, 'C03-R4': 4}
